@@ -705,15 +705,25 @@ def cf_setup(ex, p):
              Or(Val.is_none(inner), And(is_kind(inner, "Stack"), Val.a(inner) >= 0)),
              Or(Val.is_none(parent.t), And(is_kind(parent.t, "Frame"), Val.a(parent.t) >= 0))]
     p.env.update(self=self, opts=opts, parent=parent, show_lineno=show_lineno)
+    def fresh_copy(ex_, p_, abstract):
+        """a callee returns a NEW list on every call (the caller may mutate it): same elements as the abstract result"""
+        HB = ex_.unit_args["HB"]
+        arr = fresh("fmt_el", AV)
+        n = HB.length(abstract.t)
+        new = p_.new_seq("list", length=n, arr=arr)
+        p_.add_schema(new, lambda pth, j: Implies(And(j >= 0, j < n), And(Select(arr, j) == pth.read(abstract.t, j, HB))))
+        return SV(new, ty="list")
     def m_stack_format(ex_, p_, args, kw, node):
         if len(args) != 2 or kw:
             raise Unsupported("Stack._format call shape")
-        return [("ok", p_, abstract_lines(p_, stack_lines(args[0].t, args[1].t), ex_.unit_args["HB"]))]
+        ab = abstract_lines(p_, stack_lines(args[0].t, args[1].t), ex_.unit_args["HB"])
+        p_.pc.append(ex_.unit_args["HB"].length(ab.t) >= 1)          # a Stack always prints its header line (unit C18.Stack._format)
+        return [("ok", p_, fresh_copy(ex_, p_, ab))]
     def m_child_format(ex_, p_, args, kw, node):
         if len(args) != 2 or set(kw) != {"show_lineno"}:
             raise Unsupported("child Context._format call shape")
         ex_.oblig("C18.context_format.child_contexts_without_line_numbers", "clause", p_, kw["show_lineno"].t == mkbool(False))
-        return [("ok", p_, abstract_lines(p_, child_ctx_lines(args[0].t, args[1].t), ex_.unit_args["HB"]))]
+        return [("ok", p_, fresh_copy(ex_, p_, abstract_lines(p_, child_ctx_lines(args[0].t, args[1].t), ex_.unit_args["HB"])))]
     def m_getline(ex_, p_, args, kw, node):
         return [("ok", p_, ex_.new_str(p_))]
     def m_nat(ex_, p_, args, kw, node):
@@ -790,8 +800,54 @@ def cf_post(ctx):
                   Implies(And(k >= base, k < H.length(r)), cf_marked(c2, ctx.p, k, r))))
 
 
-CF_UNIT = Unit("C18.Context._format", CF, cf_setup,
-               post=[Clause("C18.context_format.hidden_prints_nothing_first_line_inner_stack_and_markers", cf_post)],
+def cf_select_tail(fi):
+    """the two marker assignments and everything from `lines = [linetext + "\\n"]` to the return.  Dropped by this extraction: the
+    hide check (unit C18.Context._format.hidden) and the computation of the first line's text (`linetext` is an arbitrary str)"""
+    body = fi.node.body
+    start = next((i for i, st in enumerate(body) if isinstance(st, ast.Assign) and ast.unparse(st.targets[0]) == "lines"), None)
+    markers = [st for st in body if isinstance(st, ast.Assign) and ast.unparse(st.targets[0]) in ("start_child", "continue_child")]
+    if start is None or len(markers) != 2 or "linetext" not in ast.unparse(body[start].value):
+        raise KeyError("contract anchor lost: tail of Context._format not found")
+    return markers + body[start:]
+
+
+def cf_select_head(fi):
+    """everything before the marker assignments (on the current tree: exactly the hide check).  If the check is moved away, the
+    prefix no longer returns [] for a hidden context and the clause below is refuted - which is what the property wants: every
+    caller (Frame._format AND Context._format's own children loop) relies on it."""
+    body = fi.node.body
+    end = next((i for i, st in enumerate(body) if isinstance(st, ast.Assign) and ast.unparse(st.targets[0]) == "start_child"), None)
+    if end is None:
+        raise KeyError("contract anchor lost: marker assignments of Context._format not found")
+    return [st for st in body[:end] if not (isinstance(st, ast.Expr) and isinstance(st.value, ast.Constant))]
+
+
+def cf_tail_setup(ex, p):
+    a = cf_setup(ex, p)
+    lt = sym_ref(p, "linetext", "str")
+    p.env["linetext"] = SV(lt.t, ty="str")
+    # the tail runs only for a context that is not hidden-and-suppressed
+    p.pc.append(Not(And(Val.b(p.getf(a["self"].t, "hide")), Not(Val.b(p.getf(a["opts"].t, "show_hidden_frames"))))))
+    return a
+
+
+def cf_head_post(ctx):
+    a = ctx.args
+    hidden = And(Val.b(a["HB"].getf(a["self"].t, "hide")), Not(Val.b(a["HB"].getf(a["opts"].t, "show_hidden_frames"))))
+    if ctx.out.kind == "return":
+        return And(hidden, is_exact_kind(ctx.result.t, "list"), ctx.H.length(ctx.result.t) == 0)
+    return Not(hidden)
+
+
+import ast  # noqa: E402
+CF_HEAD_UNIT = Unit("C18.Context._format.hidden", CF, cf_setup, body_of=cf_select_head,
+                    post=[Clause("C18.context_format.hidden_context_prints_nothing", cf_head_post)],
+                    allowed_raise=lambda ctx: BoolVal(False),
+                    **{**COMMON, "props": dict(PROPS), "known_classes": list(COMMON.get("known_classes", [])) + ["FormatOptions"]},
+                    assumptions=["extraction: only the statements of Context._format before its marker assignments are executed"])
+
+CF_UNIT = Unit("C18.Context._format.tail", CF, cf_tail_setup, body_of=cf_select_tail,
+               post=[Clause("C18.context_format.first_line_inner_stack_and_markers", cf_post)],
                invariants={(CF, "for#1"): cf_outer_inv(), (CF, "for#2"): cf_inner_inv()},
                allowed_raise=lambda ctx: BoolVal(False),
                **{**COMMON, "props": dict(PROPS), "options": dict(COMMON.get("options", {}), strings=True, iter_any_seq=True),
@@ -800,4 +856,6 @@ CF_UNIT = Unit("C18.Context._format", CF, cf_setup,
                assumptions=["Stack._format / child Context._format / _name_and_type / linecache.getline are abstract (lists of str lines, a str)",
                             "partial: see the comment above the unit for what is not proved"])
 
-UNITS = [SS_UNIT, FC_UNIT, FP_UNIT, cs_unit(), SA_UNIT, FF_UNIT, FSTR_UNIT, SF_UNIT, FF2_UNIT]        # CF_UNIT: see below
+UNITS = [SS_UNIT, FC_UNIT, FP_UNIT, cs_unit(), SA_UNIT, FF_UNIT, FSTR_UNIT, SF_UNIT, FF2_UNIT]
+
+UNITS += [CF_HEAD_UNIT, CF_UNIT]
